@@ -1,7 +1,10 @@
 package props
 
 import (
+	"encoding/json"
 	"fmt"
+	"github.com/indexsupply/shovel/dig"
+	"sort"
 	"strings"
 	"sync"
 	"time"
@@ -288,7 +291,134 @@ func runC01(e *core.Env) error {
 			Tags: []string{"several-integrations-one-cache", fmt.Sprintf("order=%v", order)}, Detail: map[string]any{"batch": batch, "history": strings.Split(op, "\n")}})
 		w.close()
 	}
+	return c01Binary(e)
+}
+
+// c01Binary: the whole program. The REAL shovel binary (built from the working tree) reads a
+// configuration FILE with four declarations (two events of the same transactions, transactions,
+// traces), migrates the fake PostgreSQL itself, and indexes the simulated node through its own
+// manager, client, caches and poller - while the chain grows, is reorganised, and the process is killed
+// and started again. At every quiescent point each table is the projection of the canonical chain.
+func c01Binary(e *core.Env) error {
+	defer removeShovelBinary()
+	r := e.Rand
+	for rep := 0; rep < e.N(1, 4) && !e.OverBudget(); rep++ {
+		rr := r.Fork()
+		chain := transferChain(6+rr.Intn(3), uint64(1+rr.Intn(1000)))
+		w, err := newWorld(e, chain)
+		if err != nil {
+			return err
+		}
+		start := uint64(1 + rr.Intn(2))
+		batch, conc := 1+rr.Intn(4), 1+rr.Intn(3)
+		igs := []config.Integration{transferIG("xfer", "t1", []string{"block_time"}, nil), approvalIG("appr", "t2", []string{"block_time", "tx_input"}, nil),
+			traceIG("trc", "t3"), txIG("txs", "t4", []string{"tx_hash", "tx_input", "block_time"})}
+		var igDocs []string
+		for i := range igs {
+			igs[i].Enabled = true
+			igDocs = append(igDocs, igFileDoc(igs[i], "src1", start))
+		}
+		doc := func(pgurl string) string {
+			return fmt.Sprintf(`{"pg_url": %q, "dashboard": {"root_password": "x"}, "eth_sources": [{"name": "src1", "chain_id": 7, "url": %q, "poll_duration": "40ms", "batch_size": %d, "concurrency": %d}], "integrations": [%s]}`,
+				pgurl, w.node.URL(), batch, conc, strings.Join(igDocs, ","))
+		}
+		// the harness' own view of the declarations (for the oracles): validated the way the file is
+		root := config.Root{Integrations: igs}
+		if err := config.ValidateFix(&root); err != nil {
+			w.close()
+			return err
+		}
+		var ts []*wTask
+		for i := range root.Integrations {
+			ci := root.Integrations[i]
+			ts = append(ts, viewTask(ci, start, batch, conc))
+		}
+		var history []string
+		var oracles []string
+		verdict := "ok"
+		settle := func(what string) {
+			history = append(history, what)
+			deadline := time.Now().Add(25 * time.Second)
+			for time.Now().Before(deadline) {
+				done := true
+				for _, t := range ts {
+					if _, top, has, _ := w.taskRows(t); !has || top != w.head() {
+						done = false
+					}
+				}
+				if done {
+					break
+				}
+				time.Sleep(30 * time.Millisecond)
+			}
+			time.Sleep(120 * time.Millisecond) // (a step in flight commits or not; then read)
+			for _, t := range ts {
+				_, top, has, _ := w.taskRows(t)
+				if (!has || top != w.head()) && verdict == "ok" {
+					verdict = fmt.Sprintf("after %q: integration %s is at %d (recorded=%v), the source's head is %d", what, t.ig, top, has, w.head())
+				}
+				oracles = append(oracles, w.projOracle(t, start-1))
+			}
+		}
+		p, err := startShovelOn(e, w.url, doc)
+		if err != nil {
+			e.Add(core.Case{Impl: "the shovel binary did not start: " + err.Error(), Spec: "started", Key: fmt.Sprintf("c01-bin-start %d", rep), Tags: []string{"binary"}})
+			w.close()
+			continue
+		}
+		settle("start")
+		w.grow(2 + rr.Intn(3))
+		settle("grow")
+		w.reorg(1+rr.Intn(2), 2+rr.Intn(2))
+		w.grow(1)
+		settle("reorg+grow")
+		p.stop() // the process is killed (wherever its tasks happen to be)
+		w.grow(2)
+		p, err = startShovelOn(e, w.url, doc)
+		if err != nil {
+			verdict = "the shovel binary did not start again: " + err.Error()
+		} else {
+			settle("kill, grow, start again")
+			out := p.out.String()
+			p.stop()
+			if strings.Contains(out, "panic:") && verdict == "ok" {
+				verdict = "the process panicked: " + lastLines(out, 8)
+			}
+		}
+		e.Add(core.Case{Impl: verdict, Spec: "ok", Oracles: oracles, Nontrivial: true, Key: fmt.Sprintf("c01-binary %d %d", rep, e.Seed),
+			Tags: []string{"binary", "whole-program", fmt.Sprintf("batch=%d", batch), fmt.Sprintf("conc=%d", conc)}, Detail: map[string]any{"history": history, "batch": batch, "conc": conc, "start": start}})
+		w.close()
+	}
 	return nil
+}
+
+// viewTask: the harness' description of a (source src1, integration) pair that runs in ANOTHER process:
+// enough for reading its positions and rows from the fake PostgreSQL and for the projection oracles
+func viewTask(ci config.Integration, start uint64, batch, conc int) *wTask {
+	t := &wTask{id: ci.Name, src: "src1", ig: ci.Name, table: ci.Table.Name, start: start, batch: batch, conc: conc, cig: ci}
+	for _, c := range ci.Table.Columns {
+		t.cols = append(t.cols, c.Name)
+	}
+	sort.Strings(t.cols)
+	if len(ci.Table.Unique) > 0 {
+		t.uniq = ci.Table.Unique[0]
+	}
+	if side, err := dig.New(ci.Name, ci.Event, ci.Block, ci.Table, ci.Notification, ci.FilterAGG); err == nil {
+		t.side = side
+	}
+	return t
+}
+
+// igFileDoc: a declaration as it is written in a configuration file / submitted to the dashboard
+func igFileDoc(ig config.Integration, src string, start uint64) string {
+	ig.Enabled = true
+	j, _ := json.Marshal(ig)
+	var m map[string]any
+	json.Unmarshal(j, &m)
+	m["sources"] = []map[string]any{{"name": src, "start": start}}
+	delete(m, "Dependencies")
+	j, _ = json.Marshal(m)
+	return string(j)
 }
 
 func transferMakeTx(salt, num, idx uint64, tx *simnode.Tx) {
